@@ -15,17 +15,23 @@ CHECKS = {
   'technique': 'Coq proof over Gallina model + generated tables; differential correspondence',
  },
  'C05': {
-  'text': "Theorems, for all customised attribute sets and all integers, that the validate_native functions regenerated "
-          "from the source on every run equal the specification (range facets, hardware bounds, enumeration, nillability), "
-          "that the text-protocol and number-protocol enforcement paths give the same verdict for the same logical value, "
-          "and that occurrence counting gives the same verdict over XML and dict documents and is exactly min<=n<=max; "
-          "the path models are tied to /repo by differential evaluation and an end-to-end oracle drives generated services "
-          "through all six protocol families at every nesting position.",
+  'text': "Theorems, for all attribute sets and all values, that the validate_string/validate_native functions regenerated "
+          "from the source on every run equal the specification: integers (range facets, fixed-width bounds, enumeration, "
+          "nillability), Unicode (length in code points, whole-string pattern for every regex oracle, enumeration), "
+          "DateTime/Date/Time (range facets over the instant / day number / microsecond of the day, with the naive-value rule "
+          "and offset-independence); that every protocol's enforcement path (XML/SOAP element and attribute, "
+          "JSON/YAML/MessagePack, HttpRpc) equals that specification and hence gives the same verdict for the same logical "
+          "value; that occurrence counting, including array element vs array items, is exactly min<=n<=max identically over "
+          "XML, hierarchical and flat documents. Path models are tied to /repo by differential evaluation (~5,700 cases per "
+          "run) and an end-to-end oracle drives generated services through all six protocols at six nesting positions "
+          "(~24,000 requests per run).",
   'design_ref': 'DESIGN.md section 6 (C05)',
-  'note': TB + "Proved for the integer family, None handling and occurrence counting; Unicode length/pattern/enumeration, "
-          "lexical well-formedness of date/time/boolean literals are decided by the end-to-end oracle against a Python "
-          "reference predicate and lxml's XSD validator (listed findings in known_findings.json).",
-  'technique': 'Coq proof over source-generated validation functions + differential correspondence + e2e oracle',
+  'note': TB + "Decimal/Double ranges, Boolean, Duration, Uuid, Enum, alternative document forms (byte strings, numbers for "
+          "text-encoded types, YAML timestamps), null/absent and lexical well-formedness (lxml XSD as judge) are decided by "
+          "the direct oracle; the regex engine and the C08 date/time readers are parameters of the theorems; DateTime bounds "
+          "must be timezone-aware; Decimal digit facets are not part of the property. 20 findings listed (lexical leniencies; "
+          "ValueError from out-of-range date/time fields).",
+  'technique': 'Coq proof over source-generated validation functions (two fail-closed translators) + differential correspondence of every enforcement path + e2e oracle',
  },
  'C13': {
   'text': "Theorems over a trace model of WsgiApplication (handle_rpc / handle_error / handle_wsdl_request / the bounded "
